@@ -48,9 +48,23 @@ def main():
                 open(p, "w").write(src.replace(e["old"], e["new"]))
             if ok_apply:
                 props = ALL if m["properties"] == "ALL" else m["properties"]
+
+                def run_one(prop):
+                    return subprocess.run([os.path.join(VERIF, "check"), prop, "--repo", base, "--evidence-dir", os.path.join(tmp, "ev-" + prop)],
+                                          stdout=subprocess.PIPE, stderr=subprocess.STDOUT, text=True)
+                results = {}
+                if len(props) > 2:
+                    # the first check fills the fact cache for this tree, the others then run side by side
+                    from concurrent.futures import ThreadPoolExecutor
+                    results[props[0]] = run_one(props[0])
+                    with ThreadPoolExecutor(max_workers=8) as ex:
+                        for prop, r in zip(props[1:], ex.map(run_one, props[1:])):
+                            results[prop] = r
+                else:
+                    for prop in props:
+                        results[prop] = run_one(prop)
                 for prop in props:
-                    r = subprocess.run([os.path.join(VERIF, "check"), prop, "--repo", base, "--evidence-dir", os.path.join(tmp, "ev")],
-                                       stdout=subprocess.PIPE, stderr=subprocess.STDOUT, text=True)
+                    r = results[prop]
                     if r.returncode == 0:
                         print("EQUIV %-45s %s silent" % (m["name"], prop))
                     else:
